@@ -44,7 +44,7 @@ theorem rerun_completes (H : Bytes → Bytes) (hH : ∀ x, (H x).length = 64)
     (r.result = .ok ∧ r.output = src) ∨ Collision H a.hashLength cks := by
   intro run₁ left r
   have := clone_complete_nojunk H hH decomp features archive { seedOutput := true } left seeds₂ a src cks hinit hd hs
-    (by intro pin hp; cases hp) (by intro h; cases h) (by intro h; cases h)
+    (by intro pin hp; cases hp) (by intro h; cases h)
   rcases this with ⟨hok, _, hout⟩ | hc
   · exact Or.inl ⟨hok, hout rfl⟩
   · exact Or.inr hc
@@ -80,7 +80,7 @@ theorem rerun_completes_any_content (H : Bytes → Bytes) (hH : ∀ x, (H x).len
     (r.result = .ok ∧ r.output = src) ∨ Collision H a.hashLength cks := by
   intro r
   have := clone_complete_nojunk H hH decomp features archive { seedOutput := true } left seeds a src cks hinit hd hs
-    (by intro pin hp; cases hp) (by intro h; cases h) (by intro h; cases h)
+    (by intro pin hp; cases hp) (by intro h; cases h)
   rcases this with ⟨hok, _, hout⟩ | hc
   · exact Or.inl ⟨hok, hout rfl⟩
   · exact Or.inr hc
